@@ -11,25 +11,25 @@ PROOF_NOTE = ("Trusted: Lean 4.33 kernel; axioms propext/Classical.choice/Quot.s
 
 # id -> (text, note-extra, technique, design_ref)
 CHECKS = {
- "C01": ("Lean theorems over ALL finite histories of in-memory broker atoms (any interleaving, any cancellation point = atom prefix): per-id conservation (mem_count), exactly-one-place (mem_exactly_one_place / mem_onePlace), per-op clauses (ack_removes, nack_dead_letters, requeue_replaces, reject_origin_partial + refutation witnesses).  Redis broker (model Redis.R, every round trip / MULTI…EXEC an atom): redis_ack_removes, redis_nack_dead_letters, redis_reject_origin (FULL origin clause), redis_requeue_atomic (one transaction: no in-between state), take_marks_processing. "
-         "The code-model is compared with the real InMemoryMessageBroker after every call of random well-behaved sessions, and every call kind is cancelled at every event-loop callback index; Lean predicates are evaluated on the implementation's snapshots. Redis: sessions on the real RedisMessageBroker/_RedisConsumer against an in-process fake server, state compared with Redis.R after every call; exactly-one-place evaluated on the fake server's keyspace; a call that never returns is reported with the history so far.",
-         "in-memory and Redis brokers (Redis server = in-process fake, assumption set R); RabbitMQ not modelled; queue_flush/delete excluded.",
+ "C01": ("Lean theorems over ALL finite histories of in-memory broker atoms (any interleaving, any cancellation point = atom prefix): per-id conservation (mem_count), exactly-one-place (mem_exactly_one_place / mem_onePlace), per-op clauses (ack_removes, nack_dead_letters, requeue_replaces, reject_origin_partial + refutation witnesses).  Redis broker (model Redis.R, every round trip / MULTI…EXEC an atom): redis_ack_removes, redis_nack_dead_letters, redis_reject_origin (FULL origin clause), redis_requeue_atomic (one transaction: no in-between state), take_marks_processing.  RabbitMQ (model Rabbit.S over an abstract AMQP server): rabbit_ack_removes, rabbit_nack_dead_letters, rabbit_reject_origin, refutations rabbit_requeue_window_witness (F2r) and rabbit_nack_nonnormal_witness (F23). "
+         "The code-model is compared with the real InMemoryMessageBroker after every call of random well-behaved sessions, and every call kind is cancelled at every event-loop callback index; Lean predicates are evaluated on the implementation's snapshots. Redis: sessions on the real RedisMessageBroker/_RedisConsumer against an in-process fake server, state compared with Redis.R after every call; exactly-one-place evaluated on the fake server's keyspace; a call that never returns is reported with the history so far. RabbitMQ: sessions on the real RabbitMessageBroker/_RabbitConsumer against an in-process fake AMQP server, state vs Rabbit.S after every call; requeue cancelled after every event-loop step; nack outside the NORMAL category.",
+         "in-memory, Redis and RabbitMQ brokers (Redis / AMQP servers = in-process fakes, assumption sets R, A); queue_flush/delete excluded.",
          "Lean 4 proof (induction over atom histories) + differential correspondence + cancellation-point enumeration", "§5 C01"),
  "C02": ("Lean: for EVERY outcome (return, raise, timeout, conversion/dependency failure, six eager responses with any set_result/set_exception/add_callback prefix, callbacks raising or not), every retry budget/attempt count, recurrence and result setting, `process` makes exactly one broker call (exactly_one_terminal), the ladder equals the disposition table (report_eq_disposition), nothing follows an eager response (nothing_after_eager). "
          "Tie: the whole outcome × retry-state × recurrence × result × converter table is run on the real Worker (in-memory broker, virtual time, jobs concurrent in one worker) and every delivery's broker calls/stores/body/callbacks are compared with the model; the property is evaluated on the observation.",
          "in-memory broker; thread/process pools not exercised; one genuine defect (F8) repaired by fix: commit 4db1223.",
          "Lean 4 proof (case analysis, unbounded in retry counters) + exhaustive-table differential correspondence", "§5 C02"),
- "C03": ("Lean (in-memory broker atoms): cancel_before_returns, cancel_after_disposed, stop_conserves_partial (a task cancelled at ANY point inside an ack/nack followed by the runner's reject leaves the message in exactly one place), finish_returns_all, return_time_bound (timer model), refutation requeue_window_witness.  Redis crash recovery: maintenance_single / maintenance_not_before (a held message is returned by maintenance iff its execution timeout has elapsed since the second of its take). "
-         "Tie: crash-point enumeration on the real Worker: 7 phase scenarios × graceful ∈ {0, 2 ms, 25 s} × stop request (the really registered signal handler) delivered at every callback index near any delivery / broker call / actor boundary (all indices in thorough); final broker state judged per message (disposed by one completed call xor back once with unchanged counter; nothing in-flight; none-or-all for interrupted calls); return time bound. Redis: crash scenarios (a consumer takes messages with timeouts from 1 s to 3 days at all positions inside a clock second and is abandoned; another process advances time and runs maintenance): returned not before the timeout (whole-second store: 1 s slack) and returned after it, back in exactly one queue; state vs Redis.R after every call.",
+ "C03": ("Lean (in-memory broker atoms): cancel_before_returns, cancel_after_disposed, stop_conserves_partial (a task cancelled at ANY point inside an ack/nack followed by the runner's reject leaves the message in exactly one place), finish_returns_all, return_time_bound (timer model), refutation requeue_window_witness.  Redis crash recovery: maintenance_single / maintenance_not_before (a held message is returned by maintenance iff its execution timeout has elapsed since the second of its take).  RabbitMQ: rabbit_requeue_window_witness. "
+         "Tie: crash-point enumeration on the real Worker: 7 phase scenarios × graceful ∈ {0, 2 ms, 25 s} × stop request (the really registered signal handler) delivered at every callback index near any delivery / broker call / actor boundary (all indices in thorough); final broker state judged per message (disposed by one completed call xor back once with unchanged counter; nothing in-flight; none-or-all for interrupted calls); return time bound. Redis: crash scenarios (a consumer takes messages with timeouts from 1 s to 3 days at all positions inside a clock second and is abandoned; another process advances time and runs maintenance): returned not before the timeout (whole-second store: 1 s slack) and returned after it, back in exactly one queue; state vs Redis.R after every call. RabbitMQ: requeue cancelled after every event-loop step on the fake AMQP server.",
          "in-memory broker for the worker runs; Redis crash recovery through maintenance on the fake server; process death and OS signal timing are runtime. PARTIAL: requeue window recorded as known finding F2.",
          "Lean 4 proof + crash-point (fault) enumeration on the real worker", "§5 C03"),
  "C04": ("Lean: the FULL statement as one theorem (C04.chain_ok): for every N ≥ 0, every failure pattern, every retry policy, duration and latency profile, recurring or not, the chain of executions of one scheduling satisfies chainOk — counters 0,1,2…, at most N+1 executions, exactly N+1 then dead-lettered/rescheduled when all fail, a success ends the chain with ack, the k-th retry not before failure + policy(k); plus counter_step, counter_bounded, chain_length, success_ends. "
          "Tie: retry chains on the real Worker (all bitmasks for small N, exception/timeout, four policies, forced retries) — per-delivery comparison with the model and chainOk evaluated on the observed chain.",
          "in-memory broker (Redis/RabbitMQ back-off delivery: see C05).",
          "Lean 4 proof (induction over the chain, unbounded N) + differential correspondence", "§5 C04"),
- "C05": ("Lean: invariant 'every waiting message that had a due time is past it' preserved by every atom, hence for ALL valid histories a normal poll never hands out a message before its due time (mem_never_early_partial; refutation witness for returns out of a DELAYED hold); update_moves_all_due + poll_progress for 'never forgotten'.  Redis: redis_never_early (a delayed message stored with the rounded-up score of its due time is never taken before it, for all positions of due time and current time inside their clock seconds; ceilSecs_le_secs, fetchDelayed_due, enqueue_score), delayed_only_visible_in_delayed, witness truncated_score_early_witness of the repaired defect. "
-         "Tie: snapshot correspondence in random sessions; notEarlyMs/latencyOk evaluated on every delivery of the real broker in sessions and in listening scenarios (due offsets × consumer phases × enqueue orders, virtual time). Redis: every delivery to a NORMAL-category consumer in random sessions (due times at sub-second positions, clock advances of 1 µs … 1 day) judged at millisecond resolution; state vs Redis.R after every call.",
-         "in-memory and Redis brokers (Redis server = in-process fake, assumption set R); RabbitMQ broker semantics not modelled; wall-clock jitter of sleep() is runtime; latency is proved per poll and sampled end-to-end.",
+ "C05": ("Lean: invariant 'every waiting message that had a due time is past it' preserved by every atom, hence for ALL valid histories a normal poll never hands out a message before its due time (mem_never_early_partial; refutation witness for returns out of a DELAYED hold); update_moves_all_due + poll_progress for 'never forgotten'.  Redis: redis_never_early (a delayed message stored with the rounded-up score of its due time is never taken before it, for all positions of due time and current time inside their clock seconds; ceilSecs_le_secs, fetchDelayed_due, enqueue_score), delayed_only_visible_in_delayed, witness truncated_score_early_witness of the repaired defect.  RabbitMQ: expiry_not_early / expiry_not_late (the computed per-message TTL lets a message out at most 1 ms before and never after its execution time, incl. float shortfall), expire_step_due, head_blocks (nothing behind a not-yet-due head leaves the delayed queue) + refutation rabbit_head_of_line_witness (F21). "
+         "Tie: snapshot correspondence in random sessions; notEarlyMs/latencyOk evaluated on every delivery of the real broker in sessions and in listening scenarios (due offsets × consumer phases × enqueue orders, virtual time). Redis: every delivery to a NORMAL-category consumer in random sessions (due times at sub-second positions, clock advances of 1 µs … 1 day) judged at millisecond resolution; state vs Redis.R after every call. RabbitMQ: arrival times at the consumer in random sessions (sub-millisecond positions) vs execution times; head-of-line scenario.",
+         "in-memory, Redis and RabbitMQ brokers (Redis / AMQP servers = in-process fakes, assumption sets R, A); wall-clock jitter of sleep() is runtime; latency is proved per poll and sampled end-to-end.",
          "Lean 4 proof (invariant over atom histories) + differential correspondence + virtual-time scenarios", "§5 C05"),
  "C06": ("Lean: one_successor (exactly one requeue after every completed iteration, with C02), reset, window (now < next ≤ now + period, on the grid, via C19), successorOk_model, first_run_honours_deferred_until, spacing_partial + refutation spacing_witness. "
          "Tie: recurring jobs on the real Worker over virtual time (periods × duration profiles × outcome patterns × deferred_until), successorOk on every requeue, message count after every iteration, spacingOk on consecutive scheduled times.",
@@ -55,9 +55,9 @@ CHECKS = {
          "Tie: random router sets with overrides vs Route.worker; the real worker run with every (name, queue) job pair: which function ran for which id, foreign messages untouched; second worker with disjoint topics on a shared queue.",
          "in-memory broker (Redis prefix filter covered by C07.topic_prefix_exact; RabbitMQ reject+requeue not exercised). Known finding F15 (livelock of two alternating consumers); defect F7 repaired by fix: 42c6068.",
          "Lean 4 proof (invariant over registration sequences) + differential correspondence", "§5 C11"),
- "C12": ("Lean: a normal poll never returns an overdue message (mem_no_expired_delivery), an overdue head is dead-lettered and stays retrievable (mem_expired_to_dead, mem_dead_retrievable), nothing but nack or an overdue poll adds to the dead letters (mem_live_not_dropped, all atoms), boundary and TTL-clock theorems.  Redis: redis_no_expired_delivery (any state, any priority order, every category but DEAD), nack_dead_letters_own_priority, dead_letters_retrievable. "
-         "Tie: sessions + exhaustive boundary table (ttl × message kind × −1/0/+1 µs) + idle-consumer arrivals on the real broker. Redis: sessions with TTLs; no overdue delivery; only overdue messages are dead-lettered by a consume pass; at the end a dead-letter consumer must retrieve every dead letter.",
-         "in-memory and Redis brokers (Redis server = in-process fake, assumption set R); RabbitMQ broker semantics not modelled.",
+ "C12": ("Lean: a normal poll never returns an overdue message (mem_no_expired_delivery), an overdue head is dead-lettered and stays retrievable (mem_expired_to_dead, mem_dead_retrievable), nothing but nack or an overdue poll adds to the dead letters (mem_live_not_dropped, all atoms), boundary and TTL-clock theorems.  Redis: redis_no_expired_delivery (any state, any priority order, every category but DEAD), nack_dead_letters_own_priority, dead_letters_retrievable.  RabbitMQ: onMessage_spec, rabbit_no_expired_handover (consume() of a NORMAL consumer never hands over an expired message, however long it waited in the prefetch queue), rabbit_dead_letters_retrievable. "
+         "Tie: sessions + exhaustive boundary table (ttl × message kind × −1/0/+1 µs) + idle-consumer arrivals on the real broker. Redis: sessions with TTLs; no overdue delivery; only overdue messages are dead-lettered by a consume pass; at the end a dead-letter consumer must retrieve every dead letter. RabbitMQ + Redis: prefetch scenarios (TTL runs out while the message waits in the consumer's local queue); RabbitMQ TTL sessions vs Rabbit.S.",
+         "in-memory, Redis and RabbitMQ brokers (Redis / AMQP servers = in-process fakes, assumption sets R, A).",
          "Lean 4 proof (case analysis over all atoms) + differential correspondence + boundary enumeration", "§5 C12"),
  "C13": ("Lean: execution_stores_own_outcome, latest_wins, disabled_writes_nothing (all outcomes incl. every eager prefix), store_failure_harmless (ALL outcomes, after fix 4db1223), eager_last_set. "
          "Tie: real Worker + result bucket broker: Job.result read back after EVERY execution on fresh and long-lived Job objects (values, exceptions, retry chains, eager set_result/set_exception, reused result ids), per-delivery store comparison with the model, fault enumeration over the failing store_bucket call.",
@@ -65,11 +65,11 @@ CHECKS = {
          "Lean 4 proof (case analysis/induction over declarations) + differential correspondence + fault enumeration", "§5 C13"),
  "C14": ("Lean: invariant (ids unique, one believer per id, beliefs backed by processing entries) preserved by every atom; for ALL histories of any number of consumers satisfying StepOk at most one consumer believes it holds a message (mem_single_holder_partial, success_once); refutation witness for finish() with a foreign holder.  Redis: redis_take_removes_partial (reads and takes of different consumers not interleaved), take_marks_processing, refutation redis_take_race_witness (two consumers reading before either takes). "
          "Tie: multi-consumer sessions on the real broker with singleHolder evaluated after every call. Redis: two real consumers on two connections polling the same queue concurrently on the fake server; their round trips replayed as model atoms in server order; duplicate hand-out judged.",
-         "in-memory and Redis brokers (Redis server = in-process fake, assumption set R); RabbitMQ broker semantics not modelled; PARTIAL: finish() while another consumer holds a message is excluded (known finding F3).",
+         "in-memory and Redis brokers (Redis server = in-process fake, assumption set R); on RabbitMQ exclusive delivery is the server's own guarantee (assumption A), not exercised; PARTIAL: finish() while another consumer holds a message is excluded (known finding F3).",
          "Lean 4 proof (invariant induction) + differential correspondence", "§5 C14"),
- "C15": ("Lean: per-consumer view lemma (a poll delivers exactly the oldest wanted waiting message, or expires the head, or rotates a foreign head) and 'all other atoms only append to the view' — FIFO for every history with one consumer (mem_fifo, other_atoms_append, mem_return_before_later).  Redis: redis_fifo (the consumer takes the OLDEST matching waiting name of a priority, for every list length and every mix of matching and foreign names — via fetchList_oldest over the 10-name windows), enqueue_does_not_overtake, returned_is_next. "
-         "Tie: single-consumer sessions (backlog 1…35, foreign topics, rejects) on the real broker: inOrder on enqueue vs delivery order. Redis: single-consumer sessions with backlogs shorter and longer than the fetch window, topic filters, rejects; delivery order judged; state vs Redis.R after every call.",
-         "in-memory and Redis brokers (Redis server = in-process fake, assumption set R); RabbitMQ broker semantics not modelled.",
+ "C15": ("Lean: per-consumer view lemma (a poll delivers exactly the oldest wanted waiting message, or expires the head, or rotates a foreign head) and 'all other atoms only append to the view' — FIFO for every history with one consumer (mem_fifo, other_atoms_append, mem_return_before_later).  Redis: redis_fifo (the consumer takes the OLDEST matching waiting name of a priority, for every list length and every mix of matching and foreign names — via fetchList_oldest over the 10-name windows), enqueue_does_not_overtake, returned_is_next.  RabbitMQ: insert_after_equal_or_higher, fifo_two (server queue order by priority, then arrival). "
+         "Tie: single-consumer sessions (backlog 1…35, foreign topics, rejects) on the real broker: inOrder on enqueue vs delivery order. Redis: single-consumer sessions with backlogs shorter and longer than the fetch window, topic filters, rejects; delivery order judged; state vs Redis.R after every call. RabbitMQ: arrival order at the consumer in sessions on the fake AMQP server vs Rabbit.S.",
+         "in-memory, Redis and RabbitMQ brokers (Redis / AMQP servers = in-process fakes, assumption sets R, A).",
          "Lean 4 proof (view refinement) + differential correspondence", "§5 C15"),
  "C16": ("Lean: at_most_one_broker_call for EVERY call sequence/category/retry state, used_handle_refuses, category_refusals, retry_budget_refusal_keeps_handle, refusals_keep_handle, final_eq_spec (callbacks after an eager response = registration order with the store in the place of the latest set_*: full statement), body_stops. "
          "Tie: all call sequences up to length 3 (thorough; sampled in quick) + random long ones on real Message objects vs Handle.calls; random set_*/add_callback prefixes through the real Worker vs the model and Pred.C16.orderOk.",
